@@ -6,8 +6,10 @@ use crate::scenario::Scenario;
 use crate::trace::Trace;
 use std::collections::BTreeMap;
 
+pub mod browse;
 pub mod c19;
 pub mod common;
+pub mod model;
 
 #[derive(Clone, Copy, Debug, PartialEq, Eq)]
 pub enum Tier {
@@ -81,7 +83,7 @@ pub trait Property: Sync + Send {
 }
 
 pub fn all() -> Vec<Box<dyn Property>> {
-    vec![Box::new(c19::C19)]
+    vec![Box::new(browse::C03), Box::new(browse::C04), Box::new(browse::C05), Box::new(c19::C19)]
 }
 
 pub fn by_id(id: &str) -> Option<Box<dyn Property>> {
